@@ -38,7 +38,7 @@ func ruleC10Phase(p *Prog, r *Result) {
 					if !(e.Args[0].Op == "field" && mElemOf(docs)(e.Args[0].Args[0])) || !mElemOf(docs)(e.Args[1]) {
 						return false, "phase 2 does not run on each expanded document"
 					}
-					if !(mElemOf(ecs)(e.Args[3]) || (e.Args[3].Op == "index" && ecs(e.Args[3].Args[0]))) {
+					if !(mElemOf(ecs)(e.Args[3]) || (e.Args[3].Op == "index" && ecs(e.Args[3].Args[0]) && e.Args[3].Args[1].Op == "idx")) {
 						return false, "an expanded document is not evaluated with its own context"
 					}
 				}
